@@ -23,7 +23,7 @@ structure TSD where
   hasReq : String → Bool                   -- NewProperty(…, tagVal).Args().Has(ArgRequired)
 
 /-- a property object -/
-structure SP where
+structure TSProp where
   field : Nat
   nodeType : String
   tag : String
@@ -32,8 +32,8 @@ structure SP where
 deriving DecidableEq, Repr
 
 structure TW where
-  prop : Nat → Option SP       -- the property object built for field i
-  metaProps : List SP          -- what meta.SetProperties was handed, in order (as the objects are at that moment)
+  prop : Nat → Option TSProp       -- the property object built for field i
+  metaProps : List TSProp          -- what meta.SetProperties was handed, in order (as the objects are at that moment)
 
 /-- lines 21-35 for one field: the `d.Tag` lookup wins; else the ExtractHandler, whose empty tag means `d.Tag` -/
 def recogS (d : TSD) (i : Nat) : Option (String × String) :=
@@ -46,10 +46,10 @@ def recogS (d : TSD) (i : Nat) : Option (String × String) :=
       | none => none
     else none
 
-def SP.has (d : TSD) (p : SP) : Bool := d.hasReq p.tagVal || p.reqSet
+def TSProp.has (d : TSD) (p : TSProp) : Bool := d.hasReq p.tagVal || p.reqSet
 
 /-- lines 38-42 on one property -/
-def SP.applyReq (d : TSD) (p : SP) : SP := if d.required && !(p.has d) then { p with reqSet := true } else p
+def TSProp.applyReq (d : TSD) (p : TSProp) : TSProp := if d.required && !(p.has d) then { p with reqSet := true } else p
 
 def propVals : List Nat → Val
   | [] => .nil
@@ -65,7 +65,7 @@ theorem decIdx_map (l : List Nat) : decIdx (l.map (fun i => Val.ref i 30)) = l :
   | nil => rfl
   | cons x rest ih => simp [decIdx, ih]
 
-def setProp (w : TW) (i : Nat) (p : SP) : TW := { w with prop := fun k => if k = i then some p else w.prop k }
+def setProp (w : TW) (i : Nat) (p : TSProp) : TW := { w with prop := fun k => if k = i then some p else w.prop k }
 
 def lookupVal (d : TSD) (i : Nat) : Val :=
   match d.lookup i with
@@ -109,8 +109,8 @@ def tsFn (d : TSD) (fs : List Nat) : String → List Val → TW → Option (Val 
 def tsPrims (d : TSD) (fs : List Nat) : Prims TW := { fn := tsFn d fs }
 
 /-- what one call hands to the meta: a property for every recognised field, in field order, marked required by default -/
-def tagScanSpec (d : TSD) (fs : List Nat) : List SP :=
-  fs.filterMap fun i => (recogS d i).map fun r => SP.applyReq d ⟨i, d.nodeType, r.1, r.2, false⟩
+def tagScanSpec (d : TSD) (fs : List Nat) : List TSProp :=
+  fs.filterMap fun i => (recogS d i).map fun r => TSProp.applyReq d ⟨i, d.nodeType, r.1, r.2, false⟩
 
 /-! ### NewProperty -/
 
@@ -155,7 +155,7 @@ def tsdOf (e : Bytes → String) (dec : String → Bytes) (d : TagProc) (fields 
 
 open Ioc.Scan in
 /-- the model's Property for a property object of the interpretation -/
-def propOf (dec : String → Bytes) (fields : List ScannedField) (p : SP) : Option Property :=
+def propOf (dec : String → Bytes) (fields : List ScannedField) (p : TSProp) : Option Property :=
   (fields[p.field]?).map fun f =>
     ⟨f, dec p.nodeType, dec p.tag, (parseD (dec p.tagVal)).1,
       if p.reqSet then Tag.setArg (parseD (dec p.tagVal)).2 Tag.kRequired [] else (parseD (dec p.tagVal)).2⟩
